@@ -134,8 +134,18 @@ def is_shot_histogram(freqs, n_shots, tol=1e-9):
             all(abs(v * n_shots - round(v * n_shots)) <= tol * max(1, n_shots) for v in freqs.values()))
 
 
-def sigma_ok(f, p, n, k=6.5):
-    return abs(f - p) <= k * math.sqrt(max(p * (1 - p), 0.0) / n) + 1.0 / n
+def sigma_ok(f, p, n, k=6.5, alpha=1e-10):
+    """Is the observed frequency f (= count/n) a plausible draw of Binomial(n, p)?  Exact two-sided binomial tail test
+    with per-comparison false-alarm probability < 2*alpha (the normal 6.5-sigma rule is only used as a fast accept:
+    it is not valid in the Poisson regime of tiny p, where it raised a false alarm in the first build - DESIGN 12)."""
+    p = min(max(float(p), 0.0), 1.0)
+    if abs(f - p) <= k * math.sqrt(max(p * (1 - p), 0.0) / n) + 1.0 / n:
+        return True
+    from scipy.stats import binom
+    kk = int(round(f * n))
+    upper = binom.sf(kk - 1, n, p)      # P(X >= kk)
+    lower = binom.cdf(kk, n, p)         # P(X <= kk)
+    return min(upper, lower) >= alpha
 
 
 def gen_unitary_gates(rng, n, k, kinds=("one", "par", "c", "cpar", "swap", "xx", "cswap", "mc")):
